@@ -74,6 +74,11 @@ type G struct {
 	waitOps []waitOp
 }
 
+type WorkItem struct {
+	Prefix []int
+	Model  map[string]uint64
+}
+
 type nondetRec struct {
 	Name string
 	T    *Term
@@ -104,7 +109,12 @@ type Exec struct {
 	prefix    []int
 	pos       int
 	decisions []int
-	pending   [][]int
+	pending   []WorkItem
+	model     map[string]uint64 // satisfies pc when non-nil
+	ev        evaluator
+	startModel map[string]uint64
+	bind      map[int]*Term
+	substMemo map[int]*Term
 	globals   map[*ssa.Global]*AggV
 	inited    map[*ssa.Package]bool
 	persistG  map[*ssa.Global]*AggV // stdlib globals, initialised once per worker
@@ -158,6 +168,7 @@ type PathResult struct {
 	Intercepts map[string]int
 	MaxLoopSeen int
 	Samples    []string
+	ForkSites  map[string]int
 }
 
 // ---------------------------------------------------------------------------
@@ -240,7 +251,7 @@ func isStdlib(p *ssa.Package) bool {
 }
 
 func (ex *Exec) globalCell(g *ssa.Global) *AggV {
-	if g.Pkg != nil && isStdlib(g.Pkg) {
+	if g.Pkg != nil && (isStdlib(g.Pkg) || ex.cfg.persist[g.Pkg.Pkg.Path()]) {
 		if c, ok := ex.persistG[g]; ok {
 			return c
 		}
@@ -263,10 +274,21 @@ func (ex *Exec) load(p Ptr) Value {
 	if p.C == nil {
 		return nil
 	}
+	if p.Sym != nil {
+		return ex.iteChain(p.Sym, p.C.E[p.I:p.I+p.N])
+	}
 	return ex.copyVal(p.C.E[p.I])
 }
 
 func (ex *Exec) store(p Ptr, v Value) {
+	if p.Sym != nil {
+		nv := v.(*Term)
+		for k := 0; k < p.N; k++ {
+			old := p.C.E[p.I+k].(*Term)
+			p.C.E[p.I+k] = ex.ts.Ite(ex.ts.Eq(p.Sym, ex.ts.BVConst(p.Sym.S.W, uint64(k))), nv, old)
+		}
+		return
+	}
 	p.C.E[p.I] = ex.copyVal(v)
 }
 
@@ -280,6 +302,28 @@ func (ex *Exec) addPC(c *Term) {
 		return
 	}
 	ex.pc = append(ex.pc, c)
+	// equality propagation: var == const binds the variable for later simplification
+	if c.Op == OEq {
+		v, k := c.Args[0], c.Args[1]
+		if v.IsConst() {
+			v, k = k, v
+		}
+		if v.Op == OVar && k.IsConst() {
+			ex.bind[v.ID] = k
+			ex.substMemo = map[int]*Term{}
+		}
+	} else if c.Op == OVar && c.S.K == SBool {
+		ex.bind[c.ID] = ex.ts.True()
+		ex.substMemo = map[int]*Term{}
+	} else if c.Op == ONot && c.Args[0].Op == OVar {
+		ex.bind[c.Args[0].ID] = ex.ts.False()
+		ex.substMemo = map[int]*Term{}
+	}
+	if ex.model != nil {
+		if v, ok := ex.ev.eval(c); !ok || v == 0 {
+			ex.model = nil
+		}
+	}
 }
 
 func (ex *Exec) check(extra *Term) SatResult {
@@ -327,10 +371,16 @@ func (ex *Exec) decide(n int, feas func(i int) SatResult) int {
 		p := make([]int, len(ex.decisions)+1)
 		copy(p, ex.decisions)
 		p[len(ex.decisions)] = a
-		ex.pending = append(ex.pending, p)
+		ex.pending = append(ex.pending, WorkItem{Prefix: p})
+	}
+	if feas != nil {
+		ex.model = nil // the taken alternative may not satisfy the old model
 	}
 	if len(alts) > 0 {
 		ex.res.Forks += len(alts)
+		if ex.cur != nil && ex.cur.top != nil {
+			ex.res.ForkSites[fmt.Sprintf("decide/%d: ", n)+ex.where(ex.cur.top)] += len(alts)
+		}
 	}
 	ex.pos++
 	ex.decisions = append(ex.decisions, first)
@@ -345,19 +395,120 @@ func (ex *Exec) branch(c *Term) bool {
 	if ex.replayMode {
 		panic(abortf("symbolic branch in concrete replay"))
 	}
-	nc := ex.ts.Not(c)
-	d := ex.decide(2, func(i int) SatResult {
-		if i == 0 {
-			return ex.check(c)
+	if len(ex.bind) > 0 {
+		c = ex.ts.Subst(c, ex.bind, ex.substMemo)
+		if c.IsConst() {
+			return c.BoolVal()
 		}
-		return ex.check(nc)
-	})
-	if d == 0 {
+	}
+	nc := ex.ts.Not(c)
+	if ex.pos < len(ex.prefix) {
+		d := ex.prefix[ex.pos]
+		ex.pos++
+		ex.decisions = append(ex.decisions, d)
+		if ex.pos == len(ex.prefix) {
+			ex.setModel(ex.startModel)
+		}
+		if d == 0 {
+			ex.addPC(c)
+			return true
+		}
+		ex.addPC(nc)
+		return false
+	}
+	// new territory. If a model of pc is known, one side is feasible for free.
+	side := -1
+	if ex.model != nil {
+		if v, ok := ex.ev.eval(c); ok {
+			if v != 0 {
+				side = 0
+			} else {
+				side = 1
+			}
+		}
+	}
+	var take int
+	if side >= 0 {
+		other := nc
+		if side == 1 {
+			other = c
+		}
+		r, m := ex.checkModel(other)
+		take = side
+		if r == Unsat && ex.cur != nil && ex.cur.top != nil {
+			ex.res.ForkSites["forced: "+ex.where(ex.cur.top)]++
+		}
+		if r != Unsat {
+			if r == Unknown {
+				ex.unknownKept++
+			}
+			ex.pushAlt(1-side, m)
+		}
+	} else {
+		r0, m0 := ex.checkModel(c)
+		if r0 == Unsat {
+			take = 1 // pc is satisfiable, so the other side is feasible
+			ex.model = nil
+		} else {
+			if r0 == Unknown {
+				ex.unknownKept++
+			}
+			take = 0
+			ex.setModel(m0)
+			r1, m1 := ex.checkModel(nc)
+			if r1 != Unsat {
+				if r1 == Unknown {
+					ex.unknownKept++
+				}
+				ex.pushAlt(1, m1)
+			}
+		}
+	}
+	ex.pos++
+	ex.decisions = append(ex.decisions, take)
+	if take == 0 {
 		ex.addPC(c)
 		return true
 	}
 	ex.addPC(nc)
 	return false
+}
+
+func (ex *Exec) pushAlt(d int, model map[string]uint64) {
+	p := make([]int, len(ex.decisions)+1)
+	copy(p, ex.decisions)
+	p[len(ex.decisions)] = d
+	ex.pending = append(ex.pending, WorkItem{Prefix: p, Model: model})
+	ex.res.Forks++
+	if ex.cur != nil && ex.cur.top != nil {
+		ex.res.ForkSites[ex.where(ex.cur.top)]++
+	}
+}
+
+func (ex *Exec) setModel(m map[string]uint64) {
+	ex.model = m
+	if m != nil {
+		ex.ev.reset(m)
+	}
+}
+
+// checkModel decides pc ∧ extra and returns a full model (by nondet name) when sat.
+func (ex *Exec) checkModel(extra *Term) (SatResult, map[string]uint64) {
+	var want []*Term
+	for _, n := range ex.nondets {
+		want = append(want, n.T)
+	}
+	r, m := ex.sol.Check(ex.pc, extra, want)
+	if r != Sat {
+		return r, nil
+	}
+	out := make(map[string]uint64, len(m))
+	for _, n := range ex.nondets {
+		if v, ok := m[n.T]; ok {
+			out[n.Name] = v
+		}
+	}
+	return r, out
 }
 
 // concretize forks over the feasible values lo..hi (inclusive) of an integer term.
@@ -373,10 +524,62 @@ func (ex *Exec) concretize(t *Term, lo, hi int64, what string) int64 {
 		panic(abortf("concretize %s: range too large (%d)", what, n))
 	}
 	w := t.S.W
-	d := ex.decide(n, func(i int) SatResult {
-		return ex.check(ex.ts.Eq(t, ex.ts.BVConst(w, uint64(lo+int64(i)))))
-	})
-	v := lo + int64(d)
+	if len(ex.bind) > 0 {
+		t = ex.ts.Subst(t, ex.bind, ex.substMemo)
+		if t.IsConst() {
+			return t.SInt()
+		}
+	}
+	var v int64
+	if ex.pos < len(ex.prefix) {
+		d := ex.prefix[ex.pos]
+		ex.pos++
+		ex.decisions = append(ex.decisions, d)
+		if ex.pos == len(ex.prefix) {
+			ex.setModel(ex.startModel)
+		}
+		v = lo + int64(d)
+	} else {
+		// enumerate feasible values: each query excludes the values found so far
+		inRange := ex.ts.And(ex.ts.BvCmp(OBvSLe, ex.ts.BVConst(w, uint64(lo)), t), ex.ts.BvCmp(OBvSLe, t, ex.ts.BVConst(w, uint64(hi))))
+		excl := inRange
+		var vals []int64
+		var models []map[string]uint64
+		for len(vals) < n {
+			var want []*Term
+			for _, nd := range ex.nondets {
+				want = append(want, nd.T)
+			}
+			want = append(want, t)
+			r, m := ex.sol.Check(ex.pc, excl, want)
+			if r == Unknown {
+				panic(abortf("concretize %s: solver unknown", what))
+			}
+			if r == Unsat {
+				break
+			}
+			val := sext(m[t], w)
+			mm := make(map[string]uint64, len(m))
+			for _, nd := range ex.nondets {
+				if x, ok := m[nd.T]; ok {
+					mm[nd.Name] = x
+				}
+			}
+			vals = append(vals, val)
+			models = append(models, mm)
+			excl = ex.ts.And(excl, ex.ts.Not(ex.ts.Eq(t, ex.ts.BVConst(w, uint64(val)))))
+		}
+		if len(vals) == 0 {
+			panic(pathPruned{"no feasible value in concretisation"})
+		}
+		for i := 1; i < len(vals); i++ {
+			ex.pushAlt(int(vals[i]-lo), models[i])
+		}
+		v = vals[0]
+		ex.pos++
+		ex.decisions = append(ex.decisions, int(v-lo))
+		ex.setModel(models[0])
+	}
 	ex.addPC(ex.ts.Eq(t, ex.ts.BVConst(w, uint64(v))))
 	return v
 }
@@ -451,7 +654,7 @@ var initSkip = map[string]bool{
 }
 
 func (ex *Exec) ensureInit(g *G, p *ssa.Package) {
-	std := isStdlib(p)
+	std := isStdlib(p) || ex.cfg.persist[p.Pkg.Path()]
 	if std {
 		if ex.persistI[p] {
 			return
@@ -1172,25 +1375,53 @@ func (ex *Exec) indexConcrete(g *G, idx *Term, n int, what string) int {
 	return int(ex.concretize(idx, 0, int64(n-1), what))
 }
 
-// iteChain selects elems[idx]; the most frequent element is the default so tables stay small.
-func (ex *Exec) iteChain(idx *Term, elems []Value) *Term {
-	w := idx.S.W
-	cnt := map[*Term]int{}
-	var def *Term
-	for _, e := range elems {
-		t := e.(*Term)
-		cnt[t]++
-		if def == nil || cnt[t] > cnt[def] {
-			def = t
+func (ex *Exec) allScalar(es []Value) bool {
+	var s0 Sort
+	for i, e := range es {
+		t, ok := e.(*Term)
+		if !ok {
+			return false
+		}
+		if i == 0 {
+			s0 = t.S
+		} else if t.S != s0 {
+			return false
 		}
 	}
-	r := def
-	for i := len(elems) - 1; i >= 0; i-- {
+	return true
+}
+
+// iteChain selects elems[idx] as a chain over runs of equal consecutive elements (interval tests),
+// which keeps constant tables (unicode properties, hex digits) small.
+func (ex *Exec) iteChain(idx *Term, elems []Value) *Term {
+	w := idx.S.W
+	n := len(elems)
+	// runs
+	type run struct {
+		end int // inclusive
+		v   *Term
+	}
+	var runs []run
+	for i := 0; i < n; i++ {
 		t := elems[i].(*Term)
-		if t == def {
-			continue
+		if len(runs) > 0 && runs[len(runs)-1].v == t {
+			runs[len(runs)-1].end = i
+		} else {
+			runs = append(runs, run{i, t})
 		}
-		r = ex.ts.Ite(ex.ts.Eq(idx, ex.ts.BVConst(w, uint64(i))), t, r)
+	}
+	r := runs[len(runs)-1].v
+	for k := len(runs) - 2; k >= 0; k-- {
+		var c *Term
+		if k > 0 && runs[k].end == runs[k-1].end+1 {
+			// single element run in the middle: equality test is cheaper for the solver
+			c = ex.ts.Eq(idx, ex.ts.BVConst(w, uint64(runs[k].end)))
+			// still need ordering for the earlier runs: use <= to stay a proper chain
+			c = ex.ts.BvCmp(OBvULe, idx, ex.ts.BVConst(w, uint64(runs[k].end)))
+		} else {
+			c = ex.ts.BvCmp(OBvULe, idx, ex.ts.BVConst(w, uint64(runs[k].end)))
+		}
+		r = ex.ts.Ite(c, runs[k].v, r)
 	}
 	return r
 }
@@ -1200,10 +1431,16 @@ func (ex *Exec) setIdxSign(t types.Type) {
 	ex.idxUnsigned = !signed
 }
 
+// idx64 widens an index to 64 bits according to its Go type, so bounds compare correctly.
+func (ex *Exec) idx64(idx *Term, t types.Type) *Term {
+	_, signed, _ := intInfo(t)
+	ex.idxUnsigned = false
+	return ex.ts.Resize(idx, 64, signed)
+}
+
 func (ex *Exec) indexOp(g *G, fr *Frame, x *ssa.Index) {
 	base := ex.get(fr, x.X)
-	idx := ex.get(fr, x.Index).(*Term)
-	ex.setIdxSign(x.Index.Type())
+	idx := ex.idx64(ex.get(fr, x.Index).(*Term), x.Index.Type())
 	switch b := base.(type) {
 	case StrV:
 		ex.strIndex(g, fr, x, b, idx)
@@ -1237,8 +1474,7 @@ func (ex *Exec) indexOp(g *G, fr *Frame, x *ssa.Index) {
 
 func (ex *Exec) indexAddr(g *G, fr *Frame, x *ssa.IndexAddr) {
 	base := ex.get(fr, x.X)
-	idx := ex.get(fr, x.Index).(*Term)
-	ex.setIdxSign(x.Index.Type())
+	idx := ex.idx64(ex.get(fr, x.Index).(*Term), x.Index.Type())
 	switch b := base.(type) {
 	case SliceV:
 		n := b.Len
@@ -1254,6 +1490,15 @@ func (ex *Exec) indexAddr(g *G, fr *Frame, x *ssa.IndexAddr) {
 				panic(abortf("access beyond the materialised part of a symbolic-length slice"))
 			}
 		}
+		if !idx.IsConst() && b.Lazy == nil && n > 0 && ex.allScalar(b.A.E[b.Off:b.Off+n]) {
+			if !ex.branch(ex.ts.BvCmp(OBvULt, idx, ex.ts.BVConst(64, uint64(n)))) {
+				ex.goPanic(g, "index out of range (slice)", nil)
+				return
+			}
+			ex.set(fr, x, Ptr{C: b.A, I: b.Off, Sym: idx, N: n})
+			fr.ip++
+			return
+		}
 		i := ex.indexConcrete(g, idx, n, "slice")
 		if i < 0 {
 			return
@@ -1265,6 +1510,15 @@ func (ex *Exec) indexAddr(g *G, fr *Frame, x *ssa.IndexAddr) {
 			return
 		}
 		arr := b.C.E[b.I].(*AggV)
+		if !idx.IsConst() && len(arr.E) > 0 && ex.allScalar(arr.E) {
+			if !ex.branch(ex.ts.BvCmp(OBvULt, idx, ex.ts.BVConst(64, uint64(len(arr.E))))) {
+				ex.goPanic(g, "index out of range (array)", nil)
+				return
+			}
+			ex.set(fr, x, Ptr{C: arr, I: 0, Sym: idx, N: len(arr.E)})
+			fr.ip++
+			return
+		}
 		i := ex.indexConcrete(g, idx, len(arr.E), "array ptr")
 		if i < 0 {
 			return
@@ -1481,6 +1735,50 @@ func (ex *Exec) mapFind(m *MapObj, k Value) int {
 	return -1
 }
 
+// mapFindRO handles a read with a symbolic key with a single fork on "key is present" when all
+// candidate entries carry indistinguishable values (e.g. set-like maps). ok=false: not applicable.
+func (ex *Exec) mapFindRO(m *MapObj, k Value) (int, bool) {
+	if _, conc := keyString(k); conc {
+		return 0, false
+	}
+	var cands []int
+	found := ex.ts.False()
+	for i, e := range m.Ent {
+		if e.Dead {
+			continue
+		}
+		eq := ex.valEq(e.K, k)
+		if eq.IsConst() && !eq.BoolVal() {
+			continue
+		}
+		cands = append(cands, i)
+		found = ex.ts.Or(found, eq)
+	}
+	if len(cands) == 0 {
+		return -1, true
+	}
+	first := m.Ent[cands[0]].V
+	for _, c := range cands[1:] {
+		same := ex.valEqSafe(first, m.Ent[c].V)
+		if same == nil || !same.IsConst() || !same.BoolVal() {
+			return 0, false
+		}
+	}
+	if ex.branch(found) {
+		return cands[0], true
+	}
+	return -1, true
+}
+
+func (ex *Exec) valEqSafe(a, b Value) (r *Term) {
+	defer func() {
+		if recover() != nil {
+			r = nil
+		}
+	}()
+	return ex.valEq(a, b)
+}
+
 func (ex *Exec) mapSet(m *MapObj, k, v Value) {
 	i := ex.mapFind(m, k)
 	if i >= 0 {
@@ -1510,8 +1808,7 @@ func (ex *Exec) lookup(g *G, fr *Frame, x *ssa.Lookup) {
 	base := ex.get(fr, x.X)
 	switch b := base.(type) {
 	case StrV:
-		idx := ex.get(fr, x.Index).(*Term)
-		ex.setIdxSign(x.Index.Type())
+		idx := ex.idx64(ex.get(fr, x.Index).(*Term), x.Index.Type())
 		ex.strIndex(g, fr, x, b, idx)
 		return
 	case MapV:
@@ -1520,7 +1817,12 @@ func (ex *Exec) lookup(g *G, fr *Frame, x *ssa.Lookup) {
 		var val Value
 		found := false
 		if b.M != nil {
-			if i := ex.mapFind(b.M, k); i >= 0 {
+			if i, ok := ex.mapFindRO(b.M, k); ok {
+				if i >= 0 {
+					val = ex.copyVal(b.M.Ent[i].V)
+					found = true
+				}
+			} else if i := ex.mapFind(b.M, k); i >= 0 {
 				val = ex.copyVal(b.M.Ent[i].V)
 				found = true
 			}
